@@ -111,6 +111,14 @@ def filter_ok(f, filters):
     return True
 
 
+def out_of_workers(exc):
+    """fork() failed with EAGAIN / no new thread could be started while
+    typhon set up its worker pool: the machine is out of processes, nothing
+    can be said about the rest of the case"""
+    return isinstance(exc, BlockingIOError) or (
+        isinstance(exc, RuntimeError) and "can't start new thread" in str(exc))
+
+
 class World:
     def __init__(self, case, box, ctx):
         self.case, self.box, self.ctx = case, box, ctx
@@ -456,7 +464,8 @@ class World:
         elif how == "item":
             f = files[op["file"] % len(files)]
             t = f.t0 + (f.t1 - f.t0) * op["frac"] / 2
-            t = t.replace(microsecond=t.microsecond // 1000 * 1000)
+            # (C16: timestamps at the resolution of the template)
+            t = G.truncate(t, G.resolution_of(spec["template"]))
             limit = G.dir_period(spec["template"])
             if not f.t0 <= t <= f.t1 or (
                     limit is not None and t - f.t0 > limit):
@@ -717,7 +726,13 @@ class World:
                "move": self.op_move, "delete": self.op_delete}
         for k, op in enumerate(self.case["ops"]):
             self.step = k
-            ops[op["op"]](op)
+            try:
+                ops[op["op"]](op)
+            except (BlockingIOError, RuntimeError) as exc:
+                if not out_of_workers(exc):
+                    raise
+                self.ctx.label("resource-exhausted")
+                return
 
 
 def check_history(case, ctx):
@@ -755,6 +770,15 @@ def check_history(case, ctx):
 # single-file filesets
 # --------------------------------------------------------------------------
 def check_single(case, ctx):
+    try:
+        _check_single(case, ctx)
+    except (BlockingIOError, RuntimeError) as exc:
+        if not out_of_workers(exc):
+            raise
+        ctx.label("resource-exhausted")
+
+
+def _check_single(case, ctx):
     from typhon.files import FileHandler, FileSet
     family, kind = case["family"], case["kind"]
     s, e = case["coverage"]
@@ -874,15 +898,15 @@ def check_single(case, ctx):
 def suites(tier):
     return [
         Suite("bytes", check_history, strategy=H.histories("bytes"),
-              examples={"quick": 40, "thorough": 400}),
+              examples={"quick": 60, "thorough": 500}),
         Suite("pickle", check_history, strategy=H.histories("pickle"),
-              examples={"quick": 10, "thorough": 100}),
+              examples={"quick": 15, "thorough": 120}),
         Suite("csv", check_history, strategy=H.histories("csv"),
-              examples={"quick": 30, "thorough": 300}),
+              examples={"quick": 45, "thorough": 400}),
         Suite("netcdf", check_history, strategy=H.histories("nc", 10),
-              examples={"quick": 24, "thorough": 240}),
+              examples={"quick": 36, "thorough": 300}),
         Suite("mixed", check_history, strategy=H.histories("mixed", 8),
-              examples={"quick": 10, "thorough": 100}),
+              examples={"quick": 15, "thorough": 120}),
         Suite("single-file", check_single, strategy=H.single_cases(),
-              examples={"quick": 16, "thorough": 160}),
+              examples={"quick": 20, "thorough": 160}),
     ]
